@@ -22,7 +22,10 @@ def _replay_file(name):
 
 
 def _elements(it, k=3):
-    return [SymObj(f"e{i}", Val.ref(z3.IntVal(it.ctx.new_id()))) for i in range(k)]
+    # distinct selector elements; two of them have the SAME capture name (f > $v:@A next to f > $v:@B, or the anonymous /1 of two
+    # selectors): what is instrumented is decided per element, never per capture name
+    return [SymObj(f"e{i}", Val.ref(z3.IntVal(it.ctx.new_id())), attrs={"capture": "v" if i < 2 else "w", "name": None if i < 2 else "w", "category": f"tag{i}"},
+                   closed=True) for i in range(k)]
 
 
 def _choose_tuple(c, els, maxlen=2):
@@ -51,7 +54,7 @@ def _tset_stub(it, log):
     return SymObj("tset", Val.ref(z3.IntVal(it.ctx.new_id())), attrs={"transform_for": s}), variants
 
 
-@unit("StackedTransforms", ["C05"], [TR + ":StackedTransforms.__init__", TR + ":StackedTransforms.push", TR + ":StackedTransforms.pop",
+@unit("StackedTransforms", ["C05", "C11", "C02"], [TR + ":StackedTransforms.__init__", TR + ":StackedTransforms.push", TR + ":StackedTransforms.pop",
                                      TR + ":StackedTransforms.get"], replay=_replay_file("c05_history.py"))
 def u_stack(c):
     """Abstract view: a multiset Act of pushed capture tuples.  well_formed: instrument_count = |Act| and
